@@ -15,7 +15,7 @@ slice, only `Add` nodes carry elements, a complement node has one edge). Vocabul
 complement: ℤ minus its edge); `Sol sys a` — all nodes do; `(compute sys).asg` — the computed sets;
 `(compute sys).err` — the offending complement nodes (`Compute` returns an error iff non-empty);
 `(compute sys).timeout` — the mirror of `for { … }` in `slowClosure` ran out of its fuel
-`|component| · (mentioned elements + 1) + 1` (never observed; see `C25_closure_terminates_full`).
+`|component| · (mentioned elements + 1) + 1`: proved impossible (`C25_closure_terminates`).
 `SmallOk`: `graph.Tarjan` does nothing below two vertices, so `Compute` leaves a one-node system as it
 was built — right for an `Add` node, wrong for a lone `Intersect()` (`C25_closure_single_inter`).
 -/
@@ -88,10 +88,28 @@ theorem compute_runOk {sys : Sys} (hwf : SetClosure.Wf sys) (h2 : 2 ≤ sys.leng
   · intro v; rw [initSt_get]; exact hwf.sorted v
   · intro c _ v _; exact initSt_get sys v
 
+theorem initSt_bounded (sys : Sys) : Bounded sys (initSt sys) := by
+  intro v e he
+  rw [initSt_get] at he
+  exact initOf_sub sys v e he
+
+/-- **The loop of `slowClosure` converges within the mirror's fuel**, for every system the API can
+build: every dirty pass strictly enlarges one of the component's sets, measured inside the finite universe
+"elements mentioned by the system, plus one point for all other integers" (co-finite sets are finite
+objects there), and a sorted representation that grows as a set without growing in this measure is
+unchanged. Hence `timeout` never occurs and the other theorems need no hypothesis about it. -/
+theorem C25_closure_terminates (sys : Sys) (hwf : SetClosure.wfB sys = true) :
+    (compute sys).timeout = false := by
+  have hwf := wf_of_wfB hwf
+  by_cases h2 : 2 ≤ sys.length
+  · exact (compute_runOk hwf h2).tmoF (initSt_bounded sys) rfl
+  · rw [compute_small (by omega)]; rfl
+
 /-- **No error reported ⇒ the computed assignment is a solution** of the whole system. -/
 theorem C25_closure_solution (sys : Sys) (hwf : SetClosure.wfB sys = true) (hs : SmallOk sys)
-    (herr : (compute sys).err = []) (htmo : (compute sys).timeout = false) :
+    (herr : (compute sys).err = []) :
     Sol sys (compute sys).asg := by
+  have htmo := C25_closure_terminates sys hwf
   have hwf := wf_of_wfB hwf
   intro v hv
   by_cases h2 : 2 ≤ sys.length
@@ -121,12 +139,13 @@ Inside a component nothing is complemented (no error), so the component's equati
 is why the comparison is relative to equal lower strata (`C25_closure_least_positive` is the global
 statement for systems without complement nodes). -/
 theorem C25_closure_least (sys : Sys) (hwf : SetClosure.wfB sys = true) (hs : SmallOk sys)
-    (herr : (compute sys).err = []) (htmo : (compute sys).timeout = false)
+    (herr : (compute sys).err = [])
     (b : Asg) (v0 : Nat) (hv0 : v0 < sys.length)
     (hb : ∀ v, SC (graphOf sys) v0 v → EqAt sys b v)
     (hlow : ∀ v w, SC (graphOf sys) v0 v → w ∈ edgesOf sys v → ¬ SC (graphOf sys) v0 w →
       ∀ x, b w x ↔ (compute sys).asg w x) :
     ∀ x, (compute sys).asg v0 x → b v0 x := by
+  have htmo := C25_closure_terminates sys hwf
   have hwf := wf_of_wfB hwf
   by_cases h2 : 2 ≤ sys.length
   · obtain ⟨hL, hcov⟩ := listing_tarjan hwf h2
@@ -146,9 +165,10 @@ theorem C25_closure_least (sys : Sys) (hwf : SetClosure.wfB sys = true) (hs : Sm
 
 /-- **Least solution** of a system without complement nodes: contained in every solution. -/
 theorem C25_closure_least_positive (sys : Sys) (hwf : SetClosure.wfB sys = true) (hs : SmallOk sys)
-    (herr : (compute sys).err = []) (htmo : (compute sys).timeout = false)
+    (herr : (compute sys).err = [])
     (hpos : ∀ v, opOf sys v ≠ .compl) (b : Asg) (hb : Sol sys b) :
     ∀ v, v < sys.length → ∀ x, (compute sys).asg v x → b v x := by
+  have htmo := C25_closure_terminates sys hwf
   have hwf := wf_of_wfB hwf
   by_cases h2 : 2 ≤ sys.length
   · obtain ⟨hL, hcov⟩ := listing_tarjan hwf h2
@@ -230,13 +250,6 @@ theorem C25_closure_single_inter :
   have := (this 0).2 (by intro w hw; simp [edgesOf, succs, graphOf] at hw)
   have h0 : ¬ ((compute [⟨.inter, [], []⟩]).get 0).Mem 0 := by decide
   exact h0 this
-
-/-- The mirror's loop always converges within its fuel. NOT proved (every dirty pass strictly enlarges
-one of the component's sets inside the finite universe "mentioned elements + one point for the rest";
-the counting argument is not formalised); the driver reports `timeout` and the check compares it with
-the terminating real code on every case, so a counterexample would show up as a disagreement. -/
-def C25_closure_terminates_full : Prop :=
-  ∀ sys : Sys, SetClosure.wfB sys = true → (compute sys).timeout = false
 
 -- non-vacuity: systems that meet the hypotheses, with and without cycles, intersections, complements
 example : SetClosure.wfB [⟨.union, [1], [1, 2]⟩, ⟨.union, [0, 2], [5]⟩, ⟨.inter, [0, 1], []⟩, ⟨.compl, [2], []⟩] = true := by decide
